@@ -267,6 +267,14 @@ func (c *FnCtx) runHoudini(tmo int, seed int) []Term {
 	if len(c.houdini) == 0 {
 		return nil
 	}
+	// functions with per-iteration clauses (large traversal loops) get many candidates, a
+	// good part of them false by design: decide them with the fast configuration only
+	fast := false
+	for _, f := range c.flags {
+		if f.iter != nil {
+			fast = true
+		}
+	}
 	for round := 0; round < 12; round++ {
 		var en []Term
 		for _, cd := range c.houdini {
@@ -288,7 +296,7 @@ func (c *FnCtx) runHoudini(tmo int, seed int) []Term {
 			g := and(append(append([]Term{}, cd.back...), cd.entry)...)
 			allGoals = append(allGoals, g)
 			o := &Obligation{Name: fmt.Sprintf("houdini.%s.%s.L%d.%s.r%d", sym(c.fn.Name()), c.uid, cd.loop.ordinal, sym(cd.desc), round), Hyp: "true", Goal: g}
-			jobs = append(jobs, job{o: o, script: c.script(o, en), tmo: tmo})
+			jobs = append(jobs, job{o: o, script: c.script(o, en), tmo: tmo, probe: fast})
 			owner = append(owner, cd)
 		}
 		if len(jobs) == 0 {
@@ -296,7 +304,7 @@ func (c *FnCtx) runHoudini(tmo int, seed int) []Term {
 		}
 		// fast path: all remaining candidates inductive together
 		ob := &Obligation{Name: fmt.Sprintf("houdini.%s.%s.all.r%d", sym(c.fn.Name()), c.uid, round), Hyp: "true", Goal: and(allGoals...)}
-		batch := []job{{o: ob, script: c.script(ob, en), tmo: tmo}}
+		batch := []job{{o: ob, script: c.script(ob, en), tmo: tmo, probe: fast}}
 		dischargeAll(batch, seed)
 		if ob.Verdict == "unsat" {
 			break
@@ -756,6 +764,139 @@ func writeJSON(path string, v any) error {
 // is &x.f (x of type *T) anywhere in the loaded /repo packages must have x
 // allocated in the same function (construction). Such a field heap is then
 // frame-stable: no call can change it on an object that already existed.
+// rootIsAlloc: the address denotes (a field of a field of ...) an object allocated by
+// this very function (composite literals initialise their fields this way).
+func rootIsAlloc(v ssa.Value) bool {
+	for {
+		switch x := v.(type) {
+		case *ssa.Alloc:
+			return true
+		case *ssa.FieldAddr:
+			v = x.X
+		default:
+			return false
+		}
+	}
+}
+
+// checkEmbeddedImmutable: `immutable Owner.via.leaf` -- the field leaf of the struct
+// stored inline in field via of Owner is never assigned on a pre-existing Owner.
+// Allowed stores: into a struct of that type held by a different container or by a
+// local; into an Owner allocated by the storing function. Stores through a pointer
+// of unknown provenance are conservatively rejected.
+func checkEmbeddedImmutable(L *Loaded, d immDecl, ownerT types.Type, prop string) []*Obligation {
+	os_, ok := ownerT.Underlying().(*types.Struct)
+	var innerT types.Type
+	if ok {
+		for i := 0; i < os_.NumFields(); i++ {
+			if os_.Field(i).Name() == d.via {
+				innerT = os_.Field(i).Type()
+			}
+		}
+	}
+	name := fmt.Sprintf("%s.immutable.%s.%s.%s", firstProp(d.props, prop), d.typ, d.via, d.field)
+	if innerT == nil {
+		return []*Obligation{{Name: name, Kind: "immutable", Func: d.pkg, Clause: "unknown embedded field", Verdict: "sat", Props: d.props, Hyp: "true", Goal: "true"}}
+	}
+	if _, isS := innerT.Underlying().(*types.Struct); !isS {
+		return []*Obligation{{Name: name, Kind: "immutable", Func: d.pkg, Clause: "embedded field is not a struct", Verdict: "sat", Props: d.props, Hyp: "true", Goal: "true"}}
+	}
+	var bad []string
+	n := 0
+	// provenance of an address of type *inner: "owner" (inside a pre-existing Owner), "ok", "unknown"
+	prov := func(v ssa.Value) string {
+		switch x := v.(type) {
+		case *ssa.Alloc:
+			return "ok"
+		case *ssa.FieldAddr:
+			s2, ST, ok := isStructPtr(x.X.Type())
+			if !ok {
+				return "unknown"
+			}
+			if structKey(ST) == structKey(ownerT) && s2.Field(x.Field).Name() == d.via {
+				if rootIsAlloc(x.X) {
+					return "ok"
+				}
+				return "owner"
+			}
+			return "ok" // the struct lives in a different container
+		case *ssa.IndexAddr:
+			return "ok" // element of a slice/array of such structs: not inside an Owner
+		}
+		return "unknown"
+	}
+	for path, sp := range L.spkgs {
+		if !strings.HasPrefix(path, repoMod) {
+			continue
+		}
+		for _, fn := range allFuncsOf(sp) {
+			for _, b := range fn.Blocks {
+				for _, ins := range b.Instrs {
+					st, ok := ins.(*ssa.Store)
+					if !ok {
+						continue
+					}
+					pos := L.prog.Fset.Position(st.Pos())
+					at := fmt.Sprintf("%s (%s:%d)", fn.RelString(nil), strings.TrimPrefix(pos.Filename, repoDir+"/"), pos.Line)
+					// whole Owner overwritten
+					if _, WT, isSP := isStructPtr(st.Addr.Type()); isSP && structKey(WT) == structKey(ownerT) {
+						n++
+						if !rootIsAlloc(st.Addr) {
+							bad = append(bad, at+" whole-owner store")
+						}
+						continue
+					}
+					// whole inner struct overwritten
+					if _, WT, isSP := isStructPtr(st.Addr.Type()); isSP && structKey(WT) == structKey(innerT) {
+						n++
+						if p := prov(st.Addr); p != "ok" {
+							bad = append(bad, at+" whole-struct store ("+p+")")
+						}
+						continue
+					}
+					fa, ok := st.Addr.(*ssa.FieldAddr)
+					if !ok {
+						continue
+					}
+					s2, ST, ok := isStructPtr(fa.X.Type())
+					if !ok || structKey(ST) != structKey(innerT) || s2.Field(fa.Field).Name() != d.field {
+						continue
+					}
+					n++
+					if p := prov(fa.X); p != "ok" {
+						bad = append(bad, at+" ("+p+")")
+					}
+				}
+			}
+		}
+	}
+	heap := fieldHeap(innerT, d.field)
+	o := &Obligation{Name: name, Kind: "immutable", Func: d.pkg,
+		Clause: fmt.Sprintf("field %s of the %s embedded in %s.%s is never assigned on a pre-existing %s (%d stores checked)", d.field, typeKey(innerT), d.typ, d.via, d.typ, n), Props: d.props, Hyp: "true", Goal: "true"}
+	if len(bad) == 0 {
+		o.Verdict = "unsat"
+		sub := "sub." + sym(structKey(ownerT)) + "." + sym(d.via)
+		dup := false
+		for _, x := range partialStable[heap] {
+			if x == sub {
+				dup = true
+			}
+		}
+		if !dup {
+			partialStable[heap] = append(partialStable[heap], sub)
+		}
+		o.Results = []SolverResult{{Solver: "syntactic-frame-scan", Verdict: "unsat"}}
+	} else {
+		o.Verdict = "sat"
+		o.Where = strings.Join(bad, "; ")
+		o.Results = []SolverResult{{Solver: "syntactic-frame-scan", Verdict: "sat", Raw: "stores that may hit a pre-existing object: " + o.Where}}
+	}
+	if hasProp(d.props, prop) {
+		return []*Obligation{o}
+	}
+	return nil
+}
+
 func checkImmutables(L *Loaded, specs *SpecSet, prop string) []*Obligation {
 	var out []*Obligation
 	for _, d := range specs.immutables {
@@ -769,6 +910,10 @@ func checkImmutables(L *Loaded, specs *SpecSet, prop string) []*Obligation {
 			continue
 		}
 		T := obj.Type()
+		if d.via != "" {
+			out = append(out, checkEmbeddedImmutable(L, d, T, prop)...)
+			continue
+		}
 		var bad []string
 		nStores := 0
 		for path, sp := range L.spkgs {
@@ -785,7 +930,7 @@ func checkImmutables(L *Loaded, specs *SpecSet, prop string) []*Obligation {
 						// whole-struct store *p = v with p : *T overwrites every field
 						if _, WT, isSP := isStructPtr(st.Addr.Type()); isSP && structKey(WT) == structKey(T) {
 							nStores++
-							if _, isAlloc := st.Addr.(*ssa.Alloc); !isAlloc {
+							if !rootIsAlloc(st.Addr) {
 								pos := L.prog.Fset.Position(st.Pos())
 								bad = append(bad, fmt.Sprintf("%s whole-struct store (%s:%d)", fn.RelString(nil), strings.TrimPrefix(pos.Filename, repoDir+"/"), pos.Line))
 							}
@@ -800,7 +945,7 @@ func checkImmutables(L *Loaded, specs *SpecSet, prop string) []*Obligation {
 							continue
 						}
 						nStores++
-						if _, isAlloc := fa.X.(*ssa.Alloc); !isAlloc {
+						if !rootIsAlloc(fa.X) {
 							pos := L.prog.Fset.Position(st.Pos())
 							bad = append(bad, fmt.Sprintf("%s (%s:%d)", fn.RelString(nil), strings.TrimPrefix(pos.Filename, repoDir+"/"), pos.Line))
 						}
